@@ -208,7 +208,9 @@ class Models:
         R(r"^core::iter::traits::iterator::Iterator::flat_map$", lambda ci: ("iter", "flat_map", ci.args[0], ci.args[1]), "Iterator::flat_map(f): the items of f(x) for each item x, in order")
         R(r"^core::iter::traits::iterator::Iterator::map$", lambda ci: ("iter", "map", ci.args[0], ci.args[1]), "Iterator::map applies f to each item")
         R(r"^core::iter::sources::once::once$", lambda ci: ("iter", "once", ci.args[0]), "iter::once yields exactly one item")
-        R(r"^core::iter::traits::iterator::Iterator::collect$", lambda ci: ("app", "collect:" + ci._sub(ci.dest["ty"]), (ci.args[0],)), "Iterator::collect::<Vec<_>> gathers all items in order")
+        R(r"^core::iter::traits::iterator::Iterator::collect$", m_collect, "Iterator::collect::<Vec<_>> gathers all items in order")
+        R(r"^core::iter::sources::repeat_n::repeat_n$", lambda ci: ("iter", "repeat_n", ci.args[0], ci.args[1]), "iter::repeat_n(x, n): n copies of x")
+        R(r"^core::iter::traits::iterator::Iterator::chain$", lambda ci: ("iter", "chain", ci.args[0], m_into_iter_value(ci, ci.args[1])), "Iterator::chain: all items of the first, then all items of the second")
         R(r"^core::iter::traits::iterator::Iterator::sum$", m_sum, "Iterator::sum adds all items in the result type (overflow panics in debug builds: A4)")
         R(r"as core::iter::traits::iterator::Iterator>::fold$|^core::iter::traits::iterator::Iterator::fold$", lambda ci: ("app", "fold", (ci.args[0], ci.args[1], ci.args[2])), "Iterator::fold(init, f)")
         R(r"^core::slice::<impl \[T\]>::iter_mut$", lambda ci: ("iter", "slice_mut", ci.deref(ci.args[0])), "slice::iter_mut yields &mut to the elements in order")
@@ -511,12 +513,7 @@ def m_opt_comb(ci):
 
     def on_some(v):
         f = ci.args[2] if which in ("map_or", "map_or_else") else ci.args[1]
-        r = apply_closure(ci, f, [v])
-        if r is None:
-            return None
-        if which == "map":
-            return some(ev, r)
-        return r
+        return apply_closure(ci, f, [v], multi=(lambda r: some(ev, r)) if which == "map" else (lambda r: r))
 
     def on_none():
         if which == "map_or":
@@ -536,10 +533,7 @@ def m_opt_comb(ci):
 
     def lazy_some(ci2):
         f = ci.args[2] if which in ("map_or", "map_or_else") else ci.args[1]
-        r = apply_closure(ci2, f, [("unwrap", x)])
-        if r is None:
-            return None
-        return some(ci2.ev, r) if which == "map" else r
+        return apply_closure(ci2, f, [("unwrap", x)], multi=(lambda r: some(ci2.ev, r)) if which == "map" else (lambda r: r))
 
     def lazy_none(ci2):
         if which == "map_or_else":
@@ -935,6 +929,39 @@ def m_iter_next(ci):
                     fr[l] = ("seq", tuple(("mapped_all", i[1], i[2]) if (i[0] == "mapped" and i[2] == it) else i for i in v[1]))
         return none(ci2.ev)
     return ("fork", [(facts, some(ev, item)), ([(d, 0)], exhausted)])
+
+
+def seq_of_iter(it):
+    """the items of an iterator over explicit elements and repeat_n blocks as byte-sequence items, else None"""
+    if it[0] != "iter":
+        return None
+    if it[1] == "array" and it[2][0] in ("array", "bytes"):
+        xs = it[2][1]
+        return [("elem", mk_int(x, "u8") if isinstance(x, int) else x) for x in xs]
+    if it[1] == "repeat_n":
+        return [("repeat", it[3], it[2])]
+    if it[1] == "chain":
+        a, b = seq_of_iter(it[2]), seq_of_iter(it[3])
+        return None if a is None or b is None else a + b
+    return None
+
+
+def m_collect(ci):
+    ty = ci._sub(ci.dest["ty"])
+    items = seq_of_iter(ci.args[0]) if ty.startswith("alloc::vec::Vec<") else None
+    if items is not None:
+        # n copies appended to a vector of known length L are a fill up to L + n (what Vec::resize does when growing)
+        out = []
+        ln = mk_int(0, "usize")
+        for i in items:
+            if i[0] == "elem":
+                out.append(i)
+                ln = mk_int(ln[1] + 1, "usize") if ln[0] == "int" else ("app", "Add", (ln, mk_int(1, "usize")))
+            else:
+                ln = ("app", "Add", (ln, i[1]))
+                out.append(("fill_to", ln, i[2]))
+        return ("seq", tuple(out))
+    return ("app", "collect:" + ty, (ci.args[0],))
 
 
 def m_find_map(ci):
